@@ -105,3 +105,55 @@ def rule_info_memo_key(ctx):
                         r.ok(f"{construct}[{cache}]", sample={"function": f.qualname, "cache": cache, "key": src_of(key), "value depends on": sorted(deps | (knames & params))})
     r.floor(n, 4, "info[<cache>][key] stores")
     return r
+
+
+def rule_sibling_guard_agreement(ctx):
+    r = RuleResult(
+        "sibling-guard-agreement",
+        "where a route dispatches on the requested output form (`get == 'matrix' / 'array' / 'tensor'`) and each arm applies the "
+        "same correction (dividing / multiplying by the norm factor), every arm guards that correction with the same test on "
+        "the multi-valued option `normalized` (True / False / 'return' ...): an arm that tests mere truthiness divides also when "
+        "the caller asked for the factor to be returned separately, and the factor is then applied twice",
+    )
+    n = 0
+    for modname in MODULES:
+        mod = ctx.prog.modules.get(modname)
+        for f in mod.all_functions:
+            if f.is_alias or isinstance(f.node, ast.Lambda) or "get" not in f.params or "normalized" not in f.params:
+                continue
+            for st in _own_walk(f.node):
+                if not (isinstance(st, ast.If) and isinstance(st.test, ast.Compare) and isinstance(st.test.left, ast.Name) and st.test.left.id == "get"):
+                    continue
+                # walk the elif chain once, from its head
+                arms = []
+                cur = st
+                while isinstance(cur, ast.If) and isinstance(cur.test, ast.Compare) and isinstance(cur.test.left, ast.Name) and cur.test.left.id == "get":
+                    arms.append((src_of(cur.test.comparators[0]), cur.body))
+                    cur = cur.orelse[0] if len(cur.orelse) == 1 and isinstance(cur.orelse[0], ast.If) else None
+                if len(arms) < 2:
+                    continue
+                # is st the head (not itself an elif of an earlier If)?
+                guards = {}
+                for label, body in arms:
+                    gs = []
+                    for x in body:
+                        for y in ast.walk(x):
+                            if isinstance(y, ast.If) and any(isinstance(z, ast.Name) and z.id == "normalized" for z in ast.walk(y.test)) \
+                                    and any(isinstance(z, ast.BinOp) and isinstance(z.op, (ast.Div, ast.Mult)) or (isinstance(z, ast.Call) and "multiply" in src_of(z.func)) for b in y.body for z in ast.walk(b)):
+                                gs.append(src_of(y.test))
+                    if gs:
+                        guards[label] = sorted(set(gs))
+                if len(guards) < 2:
+                    continue
+                n += 1
+                distinct = {tuple(v) for v in guards.values()}
+                construct = f.qualname
+                if len(distinct) == 1:
+                    r.ok(construct, sample={"function": f.qualname, "arms": sorted(guards), "common guard": list(distinct)[0]})
+                else:
+                    r.bad(Finding("sibling-guard-agreement", construct,
+                                  f"the arms of the dispatch on `get` guard the norm correction differently: {guards} — under a string value of `normalized` "
+                                  "some arms apply the correction and others do not", where=f"{f.module.relpath}:{st.lineno}", operand="get-arms"))
+                break
+    r.floor(n, 1, "output-form dispatches with a per-arm norm correction")
+    return r
